@@ -133,3 +133,28 @@ CHECKS.update({
         "note": "Trusted: ref/refext4.py backup_groups()/fixed_metadata()/tree_digest().",
     },
 })
+
+CHECKS.update({
+    "C08": {
+        "level": "exploration",
+        "technique": SIM + "resize2fs on seeded populated filesystems with its complete device event log turned into crash states (every kill-model prefix, seeded power-loss subsets per fsync epoch) for the 'has errors' flag clause; tree digest and independent checker for the data clauses",
+        "text": ("Seeded populated filesystems (flex_bg/meta_bg/resize_inode/bigalloc/32-64bit, 1k-4k blocks; worlds with few inodes per group "
+                 "thinned so that live inodes and inline directories sit in high groups; nearly full worlds; forced shrinks to the minimum) are "
+                 "resized (grow, shrink, -M, -b, -s).  Success => reported size equals the superblock, e2fsck -fn and the independent checker are "
+                 "clean, the tree digest is unchanged; refusal => not a byte of the filesystem changed.  Flag clause: for every kill-model prefix "
+                 "of the run's device events and for seeded subsets of the writes in flight between two completed fsyncs, the device equals the "
+                 "pre-image or the final image outside the primary superblock, or the on-disk primary superblock carries EXT2_ERROR_FS.  Sampling."),
+        "note": "Trusted: simdisk barrier model; ref/refext4.py. The final word-by-word rewrite of the primary superblock is excluded from the crash-state comparison (it is 'the final rewrite' of the statement).",
+    },
+    "C10": {
+        "level": "exploration",
+        "technique": SIM + "seeded namespace histories through debugfs/libext2fs in batches interleaved with e2fsck -fyD, against a namespace reference model; listing, types, link counts, content and htree hash ranges by the independent reader; conservation of inodes and blocks after cleanup",
+        "text": ("Histories of 40-900 mkdir/write/symlink/mknod/ln/unlink/rm/rmdir commands (legal ones and ones that must be refused), names of "
+                 "1-255 characters, concentrated on directories that grow from empty through linear, one- and two-level htree and shrink again, "
+                 "with e2fsck -fyD between batches.  After every batch the independent reader's listing must equal the model (names, types, link "
+                 "counts, content, targets, device numbers), directory blocks and hash ranges must be well formed, e2fsck -fn must be clean when "
+                 "the model says link counts and references agree; after removing everything the free inode and block counts return to the start "
+                 "values (minus blocks surviving directories keep).  Sampling."),
+        "note": "Trusted: namespace model in checks/C10.py (mirrors the documented semantics of debugfs ln/unlink/rm/rmdir); ref/refext4.py dirhash and directory parser.",
+    },
+})
